@@ -26,7 +26,7 @@ def _s(pkg, phase=None, **kw):
 PROPS = {
     "C01": dict(
         level="model_checking",
-        technique="stateless model checking of the verbatim Mutex sources under a controlled scheduler: all schedules within preemption/deviation bounds (CHESS-style iterative context bounding) of every program over {lock, try_lock, Debug-format}, happens-before race detection; repeated in a no-debug-assertions profile and with every tiny-std feature on; many-thread canonical schedules; compile-time Send/Sync table; futex-model conformance against the real wrappers",
+        technique="stateless model checking of the verbatim Mutex sources under a controlled scheduler: all schedules within preemption/deviation bounds (CHESS-style iterative context bounding) of every program over {lock, try_lock, Debug-format}, on one lock instance and on two independent instances used at the same time (one of them optionally held for ever: a thread parked on a free lock is a deadlock, a thread parked behind a for-ever holder is not), happens-before race detection; repeated in a no-debug-assertions profile and with every tiny-std feature on; many-thread canonical schedules; compile-time Send/Sync table; futex-model conformance against the real wrappers",
         steps=[_s("h-sync", "c01"), _s("h-sync", "futexconf"), _s("h-sync", "traits-c01"),
                _s("h-sync", "c01", profile="nochk", name="c01-nochk", args=["--lite"]),
                _s("h-sync", "c01", bin="h-sync-feat", features=["allfeat"], name="c01-all-tiny-std-features", args=["--lite"]),
@@ -39,7 +39,7 @@ PROPS = {
     ),
     "C02": dict(
         level="model_checking",
-        technique="stateless model checking of the verbatim RwLock sources under a controlled scheduler: all schedules within preemption/deviation bounds, every wake target and hand-off branch, happens-before race detection; start states at reader saturation (preset state word); repeated in a no-debug-assertions profile and with every tiny-std feature on; many-thread canonical schedules; compile-time Send/Sync table",
+        technique="stateless model checking of the verbatim RwLock sources under a controlled scheduler: all schedules within preemption/deviation bounds, every wake target and hand-off branch, happens-before race detection; one lock instance and two independent instances used at the same time (one optionally held for ever); start states at reader saturation (preset state word); repeated in a no-debug-assertions profile and with every tiny-std feature on; many-thread canonical schedules; compile-time Send/Sync table",
         steps=[_s("h-sync", "c02"), _s("h-sync", "futexconf"), _s("h-sync", "traits-c02"),
                _s("h-sync", "c02", profile="nochk", name="c02-nochk", args=["--lite"]),
                _s("h-sync", "c02", bin="h-sync-feat", features=["allfeat"], name="c02-all-tiny-std-features", args=["--lite"]),
@@ -77,7 +77,7 @@ PROPS = {
     ),
     "C15": dict(
         level="exploration",
-        technique="bounded-exhaustive enumeration of reader/writer response scripts (short pieces, EOF, EINTR, errors, unwinding panics) through the real default methods of tiny_std::io::{Read,Write} (no sampling); reference = plain concatenation, error identity, String UTF-8 invariant; print macros through the syscall seam",
+        technique="bounded-exhaustive enumeration of reader/writer response scripts (short pieces, EOF, EINTR, four other error kinds incl. EAGAIN / Timeout / Uncategorized, unwinding panics) x start capacities and prior contents of the caller's buffer through the real default methods of tiny_std::io::{Read,Write} (no sampling); reference = plain concatenation, error identity (the very error the source gave, no call after it, data before it kept), String UTF-8 invariant; print macros through the syscall seam",
         steps=[_s("h-io", "c15"), _s("h-misc", "print")],
         assumptions=["print!/println!/eprint!/dbg! path (unix/print.rs) checked through the syscall seam with scripted write answers (step print)",
                      "writer EINTR: retry or returning EINTR both accepted; buffer contents after an I/O error are not constrained (a String must stay valid UTF-8, and unchanged when the delivered bytes are not UTF-8)"],
@@ -97,7 +97,7 @@ PROPS = {
     ),
     "C20": dict(
         level="exploration",
-        technique="bounded-exhaustive enumeration: every field-value assignment x every option permutation round-trips through the real derive output; every token list up to a length bound against an independent grammar recogniser; length ladders over every way text reaches the cause buffer; help-text-vs-matcher differential; shapes incl. built-in name collisions, non-ASCII names, literal spellings",
+        technique="bounded-exhaustive enumeration: every field-value assignment x every option permutation round-trips through the real derive output; every token list up to a length bound against an independent grammar recogniser; length ladders over every way text reaches the cause buffer, write sequences on the buffer judged after every call, error types whose Display swallows write errors; help-text-vs-matcher differential; shapes incl. built-in name collisions, non-ASCII names, literal spellings",
         steps=[_s("h-cli", "c20")],
         assumptions=["15 struct shapes; repeats <= 2 per repeated field; the oracle accepts either outcome where the declared grammar leaves acceptance open"],
     ),
@@ -189,7 +189,7 @@ PROPS = {
 
     "C03": dict(
         level="exploration",
-        technique="exhaustive enumeration of bounded malloc/calloc/realloc/free histories, size-class boundary sweeps from seed heaps, every mmap placement script incl. multi-segment release and segment-junction families, and every refused mmap/mremap, on the real Dlmalloc with its system calls answered by a model kernel for anonymous memory (syscall seam); shadow-map oracle after every call",
+        technique="exhaustive enumeration of bounded malloc/calloc/realloc/free histories, size-class boundary sweeps from seed heaps, every mmap placement script incl. multi-segment release and segment-junction families and a release pass (trim / countdown) meeting a wholly free older segment in each role its chunk can have (tree-binned, the designated victim), and every refused mmap/mremap, on the real Dlmalloc with its system calls answered by a model kernel for anonymous memory (syscall seam); shadow-map oracle after every call",
         steps=[_s("h-alloc", "hist"), _s("h-alloc", "boundary"), _s("h-alloc", "placement"), _s("h-alloc", "oom"),
                _s("h-alloc", "galloc", bin="h-galloc", features=["galloc-threaded"], name="galloc-threaded", timeout_quick=240, timeout_thorough=2400),
                _s("h-alloc", "galloc", bin="h-galloc-st", features=["galloc-single"], name="galloc-st", timeout_quick=240, timeout_thorough=2400)],
@@ -198,7 +198,7 @@ PROPS = {
     ),
     "C04": dict(
         level="model_checking",
-        technique="lasso detection (explicit-state): every workload of the enumerated families (allocation sets, malloc/calloc/realloc/aligned sequences, same-tree-bin triples) is iterated on the real allocator (model kernel) from every start layout found by a BFS over warm-up episodes until the full allocator state recurs; a recurrence proves the footprint periodic, hence bounded for every repetition count; counter fast-forward cross-validated against brute force",
+        technique="lasso detection (explicit-state): every workload of the enumerated families (allocation sets, malloc/calloc/realloc/aligned sequences, same-tree-bin triples, requests sized exactly (+-16) to what an earlier step of the same repetition left behind between pinned neighbours) is iterated on the real allocator (model kernel) from every start layout found by a BFS over warm-up episodes until the full allocator state recurs; a recurrence proves the footprint periodic, hence bounded for every repetition count; counter fast-forward cross-validated against brute force",
         steps=[_s("h-alloc", "lasso")],
         assumptions=["state = allocator struct bytes + all mapped bytes + mapping table, compared by fingerprint", "workloads of <= 3 (thorough 4) blocks over a size alphabet, three placement policies; the multi-threaded clause reduces to the sequential one through the global Mutex (C01)"],
     ),
